@@ -78,7 +78,7 @@ def run(prop, tier, replay=None):
         else:
             # always keep the small ones (single-test documents), sample the rest
             rare = lambda v: v["sc"]["noshell"] or any(d["fault"] != "no" or any(t["dur"] > 0 for t in d["tests"]) for d in v["sc"]["docs"])
-            small = [v for v in allsc if sum(len(d["tests"]) for d in v["sc"]["docs"]) <= 1 or (prop == "C20" and rare(v))]
+            small = [v for v in allsc if sum(len(d["tests"]) for d in v["sc"]["docs"]) <= 1 or (prop in ("C20", "C05") and rare(v))]
             rest = [v for v in allsc if v not in small]
             chosen = small + rnd.sample(rest, max(0, want - len(small)))
         cov["scenarios_enumerated"] = len(allsc)
